@@ -82,6 +82,7 @@ from ._util import (
     import_object,
     indent_text,
     iter_to_set_str,
+    nested_arg_as_option,
     object_path_serializer,
     parse_value_or_config,
     warning,
@@ -1060,7 +1061,7 @@ def adapt_typehints(
             val = parser.parse_object(val, defaults=sub_defaults.get() or list_item)
         elif isinstance(val, NestedArg):
             prev_val = prev_val if isinstance(prev_val, Namespace) else None
-            val = parser.parse_args([f"--{val.key}={val.val}"], namespace=prev_val)
+            val = parser.parse_args([nested_arg_as_option(val)], namespace=prev_val)
         else:
             raise_unexpected_value(f"Type {typehint} expects a dict or Namespace", val)
 
@@ -1435,7 +1436,7 @@ def adapt_class_type(
 
     if isinstance(init_args, NestedArg):
         value["init_args"] = parser.parse_args(
-            [f"--{init_args.key}={init_args.val}"],
+            [nested_arg_as_option(init_args)],
             namespace=prev_init_args,
             defaults=sub_defaults.get(),
         )
